@@ -10,7 +10,7 @@ Objects travel as space-separated prefix tokens:
     eqn   ::= V val | U1 <op> eqn | B2 <op> eqn eqn          (<op> is the Go variable name: eq, neq, …)
     val   ::= n | 0 | t | f | i <int> | d <hex> | s <hex> | l <n> val*n | x expr | r <hex>
 
-Text produced from a PARSED object has every float constant wrapped in two 0x01 bytes (the model
+Text produced from a PARSED object has every float constant wrapped in two `01 7f 02` markers (the model
 keeps the literal as written; the harness puts it through `strconv.ParseFloat`/`FormatFloat`).
 -/
 namespace OjgVerif.JPText
@@ -138,7 +138,7 @@ mutual
     | .op o :: r => .op o :: Item.tagL r
     | .val v :: r => .val v.tag :: Item.tagL r
   def Val.tag : Val → Val
-    | .flt t => .flt (1 :: (t ++ [1]))
+    | .flt t => .flt (1 :: 127 :: 2 :: (t ++ [1, 127, 2]))
     | .list vs => .list (Val.tagL vs)
     | .expr x => .expr (Frag.tagL x)
     | v => v
